@@ -35,7 +35,7 @@ def proc_grids(max_ranks, nr, nz):
     return out
 
 
-def run_density(setup, nprocs, G, perturbed, cplx, policy_seed):
+def run_density(setup, nprocs, G, perturbed, cplx, policy_seed, warm=None):
     """run the real DensityFinder on all ranks; returns per rank (starts, ends, block in, rho out, q, fEq)"""
     from mpi4py import MPI
     from pygyro.model.layout import getLayoutHandler
@@ -54,6 +54,15 @@ def run_density(setup, nprocs, G, perturbed, cplx, policy_seed):
         g._f[:] = blk
         rho._f[:] = (7.5 - 3.25j) if cplx else 7.5  # stale content (as left by the in-place FFT of the previous step: non-real) must be overwritten
         df = DensityFinder(setup['quad_degree'], bs[3], eta, consts)
+        if warm is not None:
+            # the same DensityFinder is first used for a grid that is decomposed differently over the same processes (and holds
+            # other data): nothing of that call may survive into the next one
+            hw = getLayoutHandler(comm, {'v_parallel': [0, 2, 1, 3]}, list(warm), eta)
+            gw = Grid(eta, bs, hw, 'v_parallel', comm)
+            gw._f[:] = 1.0 + 0.25 * np.arange(gw._f.size).reshape(gw._f.shape)
+            hrw = getLayoutHandler(comm, {'v_parallel_2d': [0, 2, 1]}, list(warm), eta[:3])
+            rw = Grid(eta[:3], bs[:3], hrw, 'v_parallel_2d', comm, dtype=np.complex128 if cplx else float)
+            (df.getPerturbedRho if perturbed else df.getRho)(gw, rw)
         if perturbed:
             df.getPerturbedRho(g, rho)
         else:
@@ -146,7 +155,12 @@ def one_setup(chk, drv, it, stats):
                 escale[R, Z, T] = sum(abs(W[l] * u[l]) for l in range(nv))
     for gi, nprocs in enumerate(grids):
         case = dict(case0, nprocs=list(nprocs))
-        res = run_density(setup, nprocs, G, perturbed, cplx, policy_seed=it * 31 + gi)
+        alts = [g for g in grids if g[0] * g[1] == nprocs[0] * nprocs[1] and g != nprocs]
+        warm = rng.choice(alts) if alts and rng.random() < 0.6 else None
+        if warm is not None:
+            case['first_used_on_process_grid'] = list(warm)
+            chk.count('DensityFinder re-used after a differently decomposed grid')
+        res = run_density(setup, nprocs, G, perturbed, cplx, policy_seed=it * 31 + gi, warm=warm)
         if not res.ok:
             chk.fail('C16:crash', 'DensityFinder raised: ' + str(res.first_error())[:200], case)
             continue
